@@ -68,7 +68,7 @@ impl Bin {
         if let Some(last_chunk) = self.chunks.last_mut()
             && chunk.start() <= last_chunk.end()
         {
-            *last_chunk = Chunk::new(last_chunk.start(), chunk.end());
+            *last_chunk = Chunk::new(last_chunk.start(), last_chunk.end().max(chunk.end()));
             return;
         }
 
